@@ -366,6 +366,22 @@ func lbGen(seed uint64, tier string, focus string) *Scenario {
 			rpc.Client = append(ops, rpc.Client[k:]...)
 		}
 		rpc.Server = [][]Op{srv}
+		if focus == "C23" && r.Chance(1, 6) {
+			// the application starts the RPC, maybe sends, and then walks away
+			// by cancelling its context; with every kind of StreamDesc
+			rpc.Desc = core.Pick(r, "", "ss", "cs", "unary", "unary")
+			rpc.Abandon = true
+			rpc.Client = nil
+			if r.Chance(3, 4) {
+				rpc.Client = append(rpc.Client, Op{Op: "send", N: r.Intn(200)})
+			}
+			if r.Chance(1, 2) {
+				rpc.Client = append(rpc.Client, nap())
+			}
+			rpc.Server = [][]Op{{{Op: "wait_ctx"}}}
+			s.RPCs = append(s.RPCs, rpc)
+			continue
+		}
 		if r.Chance(1, 4) {
 			// first invocations fail before sending anything (trailers-only):
 			// candidates for a policy retry
